@@ -353,6 +353,61 @@ def run_reply(c, P):
             'observe': {'events': names, 'closed': [s.closed for s in w.socks]}}
 
 
+def run_reply_wide(c, P):
+    """ONE of the three decisive tokens of an otherwise correct reply (status code, Upgrade value, Sec-WebSocket-Accept value) is a hole
+    of symbolic bytes LONGER than the correct token (which one, and how much longer, are solver variables); its bytes take any value
+    >= 0x21 - in particular every non-ASCII byte, i.e. UTF-8 encoded Unicode digits, case-folding look-alikes and Unicode white space.
+    No such value can be the correct token (it is too long and contains no optional white space), so Ready must never be granted."""
+    L = lomond()
+    w = new_world()
+    ws = L.WebSocket('ws://example.com/', protocols=['chat'])
+    which = ['status', 'upgrade', 'accept'][c.choose(3, 'wide')]
+    sizes = {'status': [4, 5], 'upgrade': [10, 11], 'accept': [29, 30]}[which]
+    n = sizes[c.choose(len(sizes), 'size')]
+    h = []
+    for i in range(n):
+        b = c.byte('w%d' % i)
+        if c.concrete is None:
+            c.assume(z3.UGE(b.e, 0x21))
+        h.append(b)
+    where = [b': ', b':', b': \t'][c.choose(3, 'sep')]
+    name_variant = c.choose(2, 'name_nbsp') if which == 'accept' else 0
+
+    def stream(w_, sock):
+        key = hconn.request_key(w_, sock)
+        if key is None:
+            raise EngineLimit('server stub: no upgrade request was written before the first read')
+        acc = hconn.accept_for(key)
+        status = h if which == 'status' else list(b'101')
+        upg = h if which == 'upgrade' else list(b'websocket')
+        accv = h if which == 'accept' else acc
+        rep = (list(b'HTTP/1.1 ') + status + list(b' Switching Protocols\r\n') + list(b'Upgrade') + list(where) + upg + [13, 10]
+               + list(b'Connection: Upgrade\r\n') + list(b'Sec-WebSocket-Accept') + list(where) + accv + [13, 10]
+               + list(b'Sec-WebSocket-Protocol: chat\r\n') + [13, 10])
+        w_.notes['hs_len'] = len(rep)
+        return rep + [0x81, 0x01, 0x61]
+    w.default_script = Script(stream, cuts='one', end='eof')
+    rec = hconn.drive(w, ws, dict(poll=1e9, ping_rate=0, ping_timeout=None, close_timeout=None))
+    names = rec.names()
+    c.notes['scenario'] = dict(wide=which, size=n, events=names)
+    if rec.budget is not None:
+        raise EngineLimit('wait budget of the harness exhausted: %s' % rec.budget)
+    if rec.exc is not None:
+        c.fail('C10: exception escaped the iterator: %r' % (rec.exc,))
+    if 'ready' in names:
+        c.fail('C10: Ready although the %s token of the reply is %d bytes long and cannot be the correct value (events %s)' % (which, n, names),
+               sig='C10: Ready with an over-long %s token' % which)
+    if 'rejected' not in names and 'protocol_error' not in names:
+        c.fail('C10: incorrect reply produced neither Rejected nor ProtocolError: %s' % names)
+    for ev in ('text', 'binary', 'ping', 'pong', 'closing', 'closed', 'poll'):
+        if ev in names:
+            c.fail('C10: %s event although the upgrade was not accepted' % ev)
+    if not all(s_.closed for s_ in w.socks if s_.connected):
+        c.fail('C10: socket not closed after a rejected upgrade')
+    return {'cls': 'wide-%s-%d' % (which, n), 'sample': {'wide': which, 'events': names},
+            'observe': {'events': names, 'closed': [s_.closed for s_ in w.socks]}}
+
+
 def run_oversize(c, P):
     """header block around the 16 KiB bound, terminated or not, cut at a symbolic position"""
     L = lomond()
